@@ -62,7 +62,8 @@ Apply(i) ==
     [] i.op = "sched"   -> CCommit(ScheduleFx(CCur, i.id, i.mk, i.a, i.ms))
     [] i.op = "advance" -> \E tie \in {"reply", "timer"}, ord \in {"lo", "hi"} : CCommit(CAdvanceFx(CCur, i.ms, tie, ord))
     [] i.op = "cancel"  -> CCommit(CancelCtxFx(CCur, i.g, IF i.mode = "" THEN "killnowait" ELSE i.mode))
-    [] i.op = "inv"     -> CCommit(InvocationFx(CCur, i.reg, i.inv, i.tmo))
+    [] i.op = "inv"     -> CCommit(InvocationRpFx(CCur, i.reg, i.inv, i.tmo, i.prog))
+    [] i.op = "sendprog" -> CCommit(SendProgFx(CCur, i.inv))
     [] i.op = "intr"    -> CCommit(InterruptFx(CCur, i.inv))
     [] i.op = "release" -> CCommit(ReleaseFx(CCur, i.inv, i.how))
     [] i.op = "event"   -> CCommit(EventFx(CCur, i.sub, i.a))
